@@ -211,6 +211,15 @@ def inspect_frame(frame: FrameType) -> FrameDetails:
             raw_frame_obj = iframe_raw.frame_obj
             stacktop_copy = iframe_raw.stacktop
             frame_owner = iframe_raw.owner  # one of the FRAME_OWNED_BY_* constants
+            lasti_during = frame.f_lasti
+
+            # stacktop says how much of the stack is in use at the position
+            # the frame was in just now; make sure that this is the position
+            # whose exception handlers we looked up, not one that the other
+            # thread went through between then and now (it might be back at
+            # lasti_before by the time of the checks below, if it's looping)
+            if lasti_during != lasti_before:
+                raise _ConcurrentModification
 
             assert raw_globals == id(frame.f_globals)
             assert raw_builtins == id(frame.f_builtins)
